@@ -169,7 +169,20 @@ let verdict case impl =
              | Some _ ->
                let rc = replica_cands cl cfg rq src in
                let covered = match rq.rq_token with Some t -> lookup tinfo k t <> None | None -> false in
-               if rc <> [] then (if tab then "ok kind=tablet-replica" else "ok kind=ring-replica")
+               if rc <> [] then begin
+                 (* own=1: the pool of the chosen node holds a connection on the owning shard, so the
+                    acceptor demanded exactly that shard; part=1: that pool does not cover every shard *)
+                 let tag = match obs with
+                   | Some (n, _) ->
+                     let p = cl.c_pool n in
+                     let own = List.exists (fun (m, sh) -> m = n && pool_has_shard p (shard_u16 sh)) rc in
+                     let part = match pool_sharder p with
+                       | Some (nr, _) -> List.exists (fun i -> not (pool_has_shard p (n_of_int i))) (List.init (int_of_n nr) (fun i -> i))
+                       | None -> false in
+                     Printf.sprintf " own=%d part=%d" (if own then 1 else 0) (if part then 1 else 0)
+                   | None -> "" in
+                 (if tab then "ok kind=tablet-replica" else "ok kind=ring-replica") ^ tag
+               end
                else if tab then (if covered then "ok kind=tablet-no-usable-replica" else "ok kind=tablet-unknown-token")
                else "ok kind=ring-no-usable-replica")
         end
@@ -191,6 +204,19 @@ let verdict case impl =
           if prop_obs_ok cl cfg stm values spec_tok obs then "diff " ^ detail
           else "viol " ^ detail
         end
+    end
+  | ["P"; shd_s; _pool; want_s], [obs_s; pools_s] ->
+    (* pool tie: a request aimed at (node, wanted shard) through a pinning policy *)
+    if String.length obs_s >= 5 && String.sub obs_s 0 5 = "skip:" then "ok skipped " ^ obs_s
+    else begin
+      let (nr, msb) = match String.split_on_char '.' shd_s with
+        | [a; b] -> (hexn a, hexn b) | _ -> failwith "bad sharder" in
+      let shards = if pools_s = "_" || pools_s = "" then [] else List.map hexn (String.split_on_char '+' pools_s) in
+      let p = pool_of (if nr = N0 then None else Some (nr, msb)) shards in
+      if not (pool_wfb p) then "error ill-formed-pool"
+      else if obs_s = "none" then "viol pool-tie nothing-sent"
+      else if accept_conn_shard p (hexn want_s) (hexn obs_s) then "ok kind=pool-probe"
+      else "viol pool-tie served-by-shard=" ^ obs_s   (* C12_conn_accept_sound / _complete: the acceptor IS the property *)
     end
   | _ -> "error unknown-case"
 
